@@ -11,7 +11,8 @@ def elem_part(R, prop, raw, holds, nontrivial, key_fn=None, tag="elem", failed=N
             R.violation("harness-build", "harness does not build against /repo: " + log[-1500:],
                         {"failed": "cargo build vh-rt", "log": log[-4000:]}, found_input=False)
             return None
-    cases = [dict(c, id=i) for i, c in enumerate(raw)]
+    cases = [c for c in (erecvlib.set_pairs(dict(c)) for c in raw) if not c["pairs_truncated"]]
+    cases = [dict(c, id=i) for i, c in enumerate(cases)]
     results = vlib.run_harness(binary, cases)
     terms, keep, unparsed = [], [], 0
     for c in cases:
